@@ -18,6 +18,7 @@ outcome.
   NULL) executed by a `…HashJoinExcludingNulls` / `AntiHashJoin` operator.
 -/
 import Gms.Model.Rel
+import Gms.Model.PhysKeys
 
 namespace Gms.PhysRegions
 open Gms.Sql Gms.Rel
@@ -27,6 +28,7 @@ inductive Region where
   | hashExcludeNullsProbeMiss
   | mergeJoinTupleNullKey
   | transitiveEdgeFromNullsafeEquality
+  | hashJoinTupleKeyNotByEquality
   deriving DecidableEq, Repr
 
 def Region.name : Region → String
@@ -34,6 +36,7 @@ def Region.name : Region → String
   | .hashExcludeNullsProbeMiss => "hash_exclude_nulls_probe_miss"
   | .mergeJoinTupleNullKey => "merge_join_tuple_null_key"
   | .transitiveEdgeFromNullsafeEquality => "transitive_edge_from_nullsafe_equality"
+  | .hashJoinTupleKeyNotByEquality => "hash_join_tuple_key_not_by_equality"
 
 /-- Number of top-level conjuncts. -/
 def conjuncts : Expr → Nat
@@ -108,6 +111,39 @@ def region (db : Db) (q : Query) (ops : List String) : Option Region :=
   else if ops.contains "TupleCmp" && dbHasNull db then some .mergeJoinTupleNullKey
   else if sharedNullsafe (joinTree q) then some .transitiveEdgeFromNullsafeEquality
   else if hasTupleNotIn q && ops.any isHashExclOp then some .hashExcludeNullsProbeMiss
+  else none
+
+/-! ### Regions of the `keq` stream (join keys whose equality is not byte equality)
+
+Decided on the case: the key kinds, the STORED values, the query term and the operator skeleton
+(which for this stream also has `TupleKey` — some HashLookup is keyed by a row constructor — and
+`Distinct`). -/
+
+open Gms.PhysKeys in
+/-- The non-NULL values of the non-raw key columns with their normal forms. -/
+def keyValues (kss : List (List KeyKind)) (db : Db) : List (Value × Value) :=
+  (kss.zip db).flatMap fun p =>
+    p.2.rows.flatMap fun row =>
+      (p.1.zip row).filterMap fun kv =>
+        if kv.1 == .raw || kv.2.isNull then none
+        else (normValue kv.1 kv.2).map fun n => (n, kv.2)
+
+/-- Two stored key values are equal as join keys without being the same stored value
+(`'Bob'`/`'BOB'`, `1`/`1.0`, `1.5`/`1.500`, `0.0`/`-0.0`). -/
+def dbHasKeyVariants (kss : List (List Gms.PhysKeys.KeyKind)) (db : Db) : Bool :=
+  let kv := keyValues kss db
+  kv.any fun a => kv.any fun b => a.1 == b.1 && a.2 != b.2
+
+/-- * `hash_join_tuple_key_not_by_equality` — `plan.NewHashLookup` derives `leftKeySch` from the
+  single row-constructor expression of a multi-column key (`hash.ExprsToSchema(ctx, leftProbeKey)`: ONE
+  column of tuple type), so `hash.HashOf` finds no `StringType` for the key parts and hashes strings
+  by their bytes and decimals by their scale-preserving text: rows whose key parts are equal under the
+  collation / numerically but stored differently land in different buckets and are lost (after the
+  first left row, which still scans the whole right side). Region: some HashLookup of the plan is
+  keyed by a row constructor and the database has key variants. -/
+def keqRegion (kss : List (List Gms.PhysKeys.KeyKind)) (rawDb : Db) (_q : Query) (ops : List String) :
+    Option Region :=
+  if ops.contains "TupleKey" && dbHasKeyVariants kss rawDb then some .hashJoinTupleKeyNotByEquality
   else none
 
 end Gms.PhysRegions
